@@ -147,7 +147,7 @@ func opBaseFee(pc *uint64, interpreter *EVMInterpreter, callContext *callCtx) ([
 
 func opBlobHash(pc *uint64, interpreter *EVMInterpreter, scope *callCtx) ([]byte, error) {
 	index := scope.stack.peek()
-	index.SetBytes32([]byte{})
+	index.Clear() // no blobs: every index yields the zero hash
 	return nil, nil
 }
 
